@@ -3438,6 +3438,11 @@ class Session(_SessionClassMethods, EventTarget):
         for state in states:
             if state in self._new:
                 self._new.pop(state)
+                # a flush that failed while registering its objects
+                # (_register_persistent) leaves pending states that are
+                # already filed in the identity map
+                if self.identity_map.contains_state(state):
+                    self.identity_map.safe_discard(state)
             elif self.identity_map.contains_state(state):
                 self.identity_map.safe_discard(state)
                 self._deleted.pop(state, None)
